@@ -30,9 +30,9 @@ def baseline_in(wt):
     return [t for t in base["stable_pass"] if t not in passed]
 
 
-def confirm(pid, x):
+def confirm(pid, x, rnd=1):
     wt = f"/tmp/wt/{pid}"
-    src = f"/tmp/seeded/{pid}"
+    src = f"/tmp/seeded/{pid}" if rnd == 1 else f"/tmp/seeded{rnd}/{pid}"
     patch, demo = f"{src}/{x}.diff", f"{src}/demo_{x}.py"
     assert os.path.exists(patch) and os.path.exists(demo), (patch, demo)
     sh(["git", "checkout", "--", "."], cwd=wt)
@@ -47,11 +47,11 @@ def confirm(pid, x):
         sh(["git", "checkout", "--", "."], cwd=wt)
         sh(["git", "clean", "-fdq"], cwd=wt)
     ok = r0.returncode == 0 and r1.returncode != 0 and not missing
-    print(f"{pid}-{x}: demo without change rc={r0.returncode}, with change rc={r1.returncode}, baseline missing={len(missing)} -> {'CONFIRMED' if ok else 'REJECTED'}")
+    print(f"{pid}-{x} (round {rnd}): demo without change rc={r0.returncode}, with change rc={r1.returncode}, baseline missing={len(missing)} -> {'CONFIRMED' if ok else 'REJECTED'}")
     if not ok:
         print(r0.stdout[-600:], r1.stdout[-600:], missing[:5])
         return False
-    out = os.path.join(SEEDED, f"{pid}-{x}")
+    out = os.path.join(SEEDED, f"{pid}-{x}" if rnd == 1 else f"{pid}-{rnd}{x}")
     os.makedirs(out, exist_ok=True)
     shutil.copy(patch, os.path.join(out, "patch.diff"))
     shutil.copy(demo, os.path.join(out, "demo.py"))
@@ -104,7 +104,7 @@ def detect(names, extra_props=None):
 
 if __name__ == "__main__":
     if sys.argv[1] == "confirm":
-        sys.exit(0 if confirm(sys.argv[2], sys.argv[3]) else 1)
+        sys.exit(0 if confirm(sys.argv[2], sys.argv[3], int(sys.argv[4]) if len(sys.argv) > 4 else 1) else 1)
     elif sys.argv[1] == "detect":
         names = sys.argv[2:] or sorted(os.listdir(SEEDED))
         detect(names)
